@@ -27,6 +27,10 @@ type synthFS struct {
 	WalkErr   error
 	// ReadErr maps a path to the number of bytes after which Read fails.
 	ReadErr map[string]int
+	// SizeOff is added to the announced size of a path (a source whose
+	// stat sizes are not exact, or a file rewritten shorter after the walk):
+	// the bytes read stay what they are.
+	SizeOff map[string]int64
 	// OpenErr lists paths whose Open fails.
 	OpenErr map[string]bool
 	// Hook is called on every Read (for delays).
@@ -107,7 +111,11 @@ func (s *synthFS) Walk(ctx context.Context, target string, fn gofs.WalkDirFunc) 
 		if s.Hook != nil {
 			s.Hook("walk", e.Path)
 		}
-		err := fn(e.Path, &fsutil.DirEntryInfo{Stat: e.Stat()}, nil)
+		st := e.Stat()
+		if off, ok := s.SizeOff[e.Path]; ok {
+			st.Size += off
+		}
+		err := fn(e.Path, &fsutil.DirEntryInfo{Stat: st}, nil)
 		if err != nil {
 			if err == filepath.SkipDir {
 				if e.Type == tree.Dir {
